@@ -115,12 +115,18 @@ def run_method(facts, store, name, state, extra):
     return r
 
 
-PRE = [('no-keyspace', None), ('keyspace-without-key', None), ('live', 'old'), ('tombstone', 'old')]
+PRE = [('no-keyspace', None), ('keyspace-without-key', None), ('live', 'old'), ('tombstone', 'old'), ('tombstones-only', None), ('tombstones-only-with-key', 'old')]
 
 
 def pre_state(pre):
     kind, _ = pre
     meta, data = {}, {}
+    if kind in ('tombstones-only', 'tombstones-only-with-key'):
+        # the keyspace holds tombstones but never held a document: the metadata table knows it, the document table does not
+        meta['ks'] = {'other': ('t_other', True)}
+        if kind == 'tombstones-only-with-key':
+            meta['ks']['k'] = ('old', True)
+        return meta, data
     if kind != 'no-keyspace':
         meta['ks'] = {'other': ('t_other', False)}
         data['ks'] = {'other': 't_other'}
@@ -173,7 +179,8 @@ def check_memstore(ctx, facts, rule):
         return _fallback(ctx, rule, e)
     b0 = st.methods['put']
     site_ = '%s:%s' % (b0.file, b0.line)
-    labs = {'no-keyspace': 'keyspace never written', 'keyspace-without-key': 'keyspace known, key absent', 'live': 'key live at an older stamp', 'tombstone': 'key tombstoned at an older stamp'}
+    labs = {'no-keyspace': 'keyspace never written', 'keyspace-without-key': 'keyspace known, key absent', 'live': 'key live at an older stamp', 'tombstone': 'key tombstoned at an older stamp',
+            'tombstones-only': 'keyspace holds only tombstones (no document table yet), key absent', 'tombstones-only-with-key': 'keyspace holds only tombstones, key tombstoned at an older stamp'}
     for pre in PRE:
         m0, d0 = pre_state(pre)
 
